@@ -23,7 +23,8 @@ RULE = ('seeded random 3-axis signals: linear (a + b t, d + e t with non-paralle
         'a third of the Imu tables with permuted labelled columns plus an unrelated one, '
         'ladder h = 160 ms .. 0.3 ms (10 halving rungs, 8 intervals each; order fitted on the <= 4 finest usable rungs); non-trivial = every case (the existing test feeds '
         'constant readings only); distinct = generator parameters'
-        ' Round 4: class long-excerpt - records of 70 000..270 000 samples: rows around every power of two, every multiple of 65536 and random rows must equal the same samples processed as a 14-sample excerpt (1e-12 relative).')
+        ' Round 4: class long-excerpt - records of 70 000..270 000 samples: rows around every power of two, every multiple of 65536 and random rows must equal the same samples processed as a 14-sample excerpt (1e-12 relative).'
+        ' Round 5: Imu frames of mixed dtypes (whole-number gyro rates stored as int64 next to float accelerometers).')
 ASSUMPTIONS = ['reference integrals by DOP853 at rtol 1e-13; rungs used for the order fit (>= 3 consecutive) satisfy max(|w|, signal frequency) * 1.5 h <= 0.3 (linear) / 0.12 (sinusoid) '
                'and error >= 100x the oracle floor (4 eps of the increment)', 'orders required: 3.5 (linear signals, from the statement: exact through the cubic term); 2.0 for sinusoids (the docstring names no order; with jittered stamps the max-over-intervals error of a rate sensor fell as h^2.49 in a thorough run, observed range 2.5..3.0; every coefficient / sign slip is decided by the linear clause, the sinusoid clause only guards against a drop to first order)']
 REQUIRED_OBS = ['mixed_dtype_frames', 'excerpt_rows_compared', 'structure_checked', 'order_fits', 'rungs_evaluated', 'imu_columns_permuted', 'pattern_one_late', 'pattern_two_rate', 'pattern_alternating',
